@@ -249,6 +249,23 @@ def wl_surj_wl(u):
             u.call("surj_verify", p_.b(1), b''.join(gobjs[:-1]), nin, gobjs[-1], cls="chained:surjproof")
             m2 = rng.choice((nin - 1, nin + 1)) if nin > 1 else 2
             gl = (gobjs[:-1] * 2)[:m2]; u.call("surj_verify", p_.b(1), b''.join(gl), len(gl), gobjs[-1], cls="chained:surjproof")
+    # well-formed-looking proofs for every input-count field around the 256 limit (and far beyond), with a consistent bitmap length and
+    # total length, few or all bits set: the parsed object must never outgrow secp256k1_surjectionproof
+    g1 = u.call("generator_parse", zkp.gen_ser(mulG(rng.randrange(1, n))), cls="setup", nt=False)
+    for nin in ctx.mine(list(range(240, 280)) + [511, 512, 513, 1023, 2047, 4095, 4096, 8191, 32767, 65535]):
+        bl = (nin + 7) // 8
+        for mode in range(3):
+            bm = bytearray(bl)
+            if mode == 1: bm[rng.randrange(bl)] |= 1 << rng.randrange(8)
+            if mode == 2:
+                bm = bytearray(b'\xff' * bl)
+                if nin % 8: bm[-1] = (1 << (nin % 8)) - 1
+            used = sj.popcount(bm)
+            s_ = bytes([nin & 0xFF, nin >> 8]) + bytes(bm) + pools.rbytes(rng, 32 * (1 + used))
+            p_ = u.call("surj_parse", s_, cls="surjection:count_field")
+            if p_ is None or p_.ret != 1: continue
+            u.call("surj_counts", p_.b(1), cls="chained:surjproof", ret01=False); u.call("surj_serialize", p_.b(1), len(s_), cls="chained:surjproof")
+            if g1 is not None and g1.ret == 1: u.call("surj_verify", p_.b(1), g1.b(1) * min(nin, 256), min(nin, 256), g1.b(1), cls="chained:surjproof")
     for it in range(ctx.n(100, 3000)):
         nk = rng.choice((0, 1, 2, 3, 8, 255)) if it % 6 else rng.randrange(0, 256)
         nk = min(nk, 12) if ctx.quick and nk != 255 else nk
